@@ -116,6 +116,9 @@ def deref_att(op):
     disp = "%+d" % op.a.disp if op.a.disp else ""
     seg = "%s:" % op.a.seg if (op.a.seg is not None) else ""
     b = op.a.base
+    if b._is_cst:
+        # absolute address (no base register, e.g. ModRM mod=00 rm=101 or a moffs operand)
+        return [(Token.Memory, "%s%d" % (seg, b.value + op.a.disp))]
     if b._is_reg:
         bis = "(%{})".format(b)
     else:
